@@ -467,9 +467,13 @@ namespace smt
         // these are the rows in which x_j appears..
         std::unordered_set<row *> x_j_watches;
         std::swap(x_j_watches, t_watches[x_j]);
-        for (const auto &r : x_j_watches)
 #ifdef PARALLELIZE
-            sat->get_thread_pool().enqueue([this, x_j, expr, r]
+        // the rows are updated in parallel; the resulting changes to the watch lists are collected per row and applied
+        // afterwards, row by row, so that the watch lists are filled exactly as by the sequential loop whatever the thread schedule..
+        const std::vector<row *> x_j_rows(x_j_watches.cbegin(), x_j_watches.cend());
+        std::vector<std::vector<std::pair<var, bool>>> w_updates(x_j_rows.size());
+        for (size_t i = 0; i < x_j_rows.size(); ++i)
+            sat->get_thread_pool().enqueue([x_j, expr, r = x_j_rows[i], &w_upd = w_updates[i]]
                                            {
                                                rational cc = r->l.vars[x_j];
                                                r->l.vars.erase(x_j);
@@ -477,8 +481,7 @@ namespace smt
                                                    if (const auto trm_it = r->l.vars.find(v); trm_it == r->l.vars.cend())
                                                    { // we are adding a new term to 'r'..
                                                        r->l.vars.emplace(v, c * cc);
-                                                       std::lock_guard<std::mutex> lock(t_mtxs[v]);
-                                                       t_watches[v].emplace(r);
+                                                       w_upd.emplace_back(v, true);
                                                    }
                                                    else
                                                    { // we are updating an existing term of 'r'..
@@ -487,14 +490,20 @@ namespace smt
                                                        if (trm_it->second == rational::ZERO)
                                                        { // the updated term's coefficient has become equal to zero, hence we can remove the term..
                                                            r->l.vars.erase(trm_it);
-                                                           std::lock_guard<std::mutex> lock(t_mtxs[v]);
-                                                           t_watches[v].erase(r);
+                                                           w_upd.emplace_back(v, false);
                                                        }
                                                    }
                                                r->l.known_term += expr.known_term * cc; });
         // we wait for all the rows to be updated..
         sat->get_thread_pool().join();
+        for (size_t i = 0; i < x_j_rows.size(); ++i)
+            for (const auto &[v, added] : w_updates[i])
+                if (added)
+                    t_watches[v].emplace(x_j_rows[i]);
+                else
+                    t_watches[v].erase(x_j_rows[i]);
 #else
+        for (const auto &r : x_j_watches)
         { // 'r' is a row in which 'x_j' appears..
             rational cc = r->l.vars[x_j];
             r->l.vars.erase(x_j);
